@@ -87,6 +87,12 @@ func genHostResult(t *sim.Tape, name string, base time.Time) *results.Result {
 	}
 	res.Summary.Hits.Total = len(res.Rows)
 	res.Summary.Hits.Displayed = len(res.Rows)
+	switch t.Draw(6) {
+	case 0:
+		res.Summary.Hits.Total = 0 // a host that does not fill in the hit count
+	case 1:
+		res.Summary.Hits.Total += 1 + t.Draw(20) // a host that applied a row limit: more hits than rows
+	}
 	res.Summary.DataAvailable = true
 	if len(res.Rows) == 0 && t.Bool() {
 		res.Summary.DataAvailable = false // the host has no data for the interface / range at all
@@ -421,9 +427,17 @@ func c15(r *sim.R) *sim.Violation {
 			}
 			// partial results are merges of a subset of the hosts: never more than the final result
 			ft := out.res.Summary.Totals
+			// (the hit count only grows with the merged hosts if every host reports at least as
+			// many hits as rows; a host that does not fill it in makes the running count dip)
+			hitsMonotone := true
+			for _, h := range hs {
+				if h.res != nil && h.res.Summary.Hits.Total < len(h.res.Rows) {
+					hitsMonotone = false
+				}
+			}
 			for i, p := range out.partials {
 				pt := p.Summary.Totals
-				if pt.BytesRcvd > ft.BytesRcvd || pt.BytesSent > ft.BytesSent || pt.PacketsRcvd > ft.PacketsRcvd || pt.PacketsSent > ft.PacketsSent || p.Summary.Hits.Total > out.res.Summary.Hits.Total {
+				if pt.BytesRcvd > ft.BytesRcvd || pt.BytesSent > ft.BytesSent || pt.PacketsRcvd > ft.PacketsRcvd || pt.PacketsSent > ft.PacketsSent || (hitsMonotone && p.Summary.Hits.Total > out.res.Summary.Hits.Total) {
 					return r.Report(&sim.Violation{Clause: "partial-result-exceeds-final-result", Signature: sig, Detail: fmt.Sprintf("partial result %d: totals %+v hits %d, final: %+v hits %d", i, pt, p.Summary.Hits.Total, ft, out.res.Summary.Hits.Total)})
 				}
 			}
